@@ -207,6 +207,14 @@ class Zygote:
             try:
                 os.close(req_w)
                 os.close(resp_r)
+                # optional warm-up of THIRD-PARTY machinery only (e.g. matplotlib's font cache), so that every
+                # grandchild does not pay for it again; nothing of the library under test is touched
+                for target in ZYGOTE_WARMUP:
+                    try:
+                        mod, fn = target.split(":")
+                        getattr(importlib.import_module(mod), fn)()
+                    except BaseException:  # noqa
+                        pass
                 while True:
                     msg = _recv(req_r)
                     if msg is None:
@@ -238,6 +246,7 @@ class Zygote:
 
 
 _ZYGOTE = None
+ZYGOTE_WARMUP = []  # "module:function" strings, set by the property before its first isolated run
 
 
 def get_zygote():
